@@ -122,11 +122,13 @@ FAMILIES = {
     "C05": ["gc"],
     "C11": ["canon", "canon", "gc", "npt"],
     "C12": ["canon", "canon", "hmc", "npt", "gc"],
+    "C14": ["hmc"],
+    "C20": ["canon", "gc", "npt", "hmc"],
 }
 
 
-def engine_check(prop, tier, level="model_checking", n_quick=240, n_thorough=2400, families=None):
-    rep = Report(prop, tier, level)
+def engine_check(prop, tier, level="model_checking", n_quick=240, n_thorough=2400, families=None, rep=None, finish=True):
+    rep = rep or Report(prop, tier, level)
     n = n_quick if tier == "quick" else n_thorough
     fams = families or FAMILIES[prop]
     seeds = [(rep.seed * 1000 + i, fams[i % len(fams)]) for i in range(n)]
@@ -186,4 +188,4 @@ def engine_check(prop, tier, level="model_checking", n_quick=240, n_thorough=240
     rep.assumptions += ["observation from outside only: recording subclasses of the shipped moves, a delegating criteria wrapper, public attributes of context/calculator",
                         "energy ownership is decided by comparing with a from-scratch evaluation (independent calculator instance) at rel. tol. 1e-9; configurations with equal energies are admitted as a set",
                         "after a recorded finding that corrupts the run persistently the rest of that trace is not judged"]
-    return rep.finish()
+    return rep.finish() if finish else rep
